@@ -88,6 +88,26 @@ def check(run, prog, tier):
     setters = [(fi, e) for fi, r, e in scan.all() if e.kind == "store" and e.attrname == "_can_answer_offers" and e.value == const(True)]
     run.ob("F1", f"{INST}:may-answer-set-only-by-task", bool(setters) and all(fi.qual == ot.qual for fi, e in setters), loc(ot),
            f"the may-answer flag is set in {sorted({fi.qual for fi, e in setters})}")
+    # "every running instance that has already sent its first offer" answers: a task that ends on its own (an instance
+    # without cyclic offers, after its repetitions) leaves a *running* instance behind - the flag must survive that exit;
+    # only a cancellation (stop) and stop() itself clear it
+    ce = engine(prog, NoInline())
+    ce.policy.cancel_at_await = True
+    n_norm, lost = 0, None
+    for p in ce.paths(ot, recv=INST):
+        if not p.returns():
+            continue
+        sts = [e for e in p.events if e.kind == "store" and e.attrname == "_can_answer_offers" and e.target[1] == me]
+        if not sts:
+            continue
+        n_norm += 1
+        if sts[-1].value != const(True):
+            lost = sts[-1]
+    run.paths += n_norm
+    run.ob("F1", f"{ot.qual}:may-answer-survives-normal-task-end", n_norm > 0 and lost is None, loc(ot, lost.node if lost is not None else None),
+           f"on all {n_norm} path(s) on which the offer task ends without being cancelled the may-answer flag stays set" if lost is None else
+           "the offer task clears the may-answer flag when it ends on its own (no cyclic offers configured): the instance is still "
+           "running and offered, but no longer answers FindService")
 
     # ------------------------------------------------------------------ F2 / F3
     pol = InlineOnly(names=(), props=False, max_depth=0, unroll=3 if tier == "thorough" else 2)
